@@ -6,6 +6,15 @@
 //! complete read-side script is run twice under catch_unwind and a hang
 //! watchdog; transcripts must be equal, parsed names must agree with an
 //! independent decompressor.
+//!
+//! Length axis x selector axis x every accessor: per record type the product
+//! of its selector octets (algorithm, digest type, flags, gateway type,
+//! parameter key, ...) with every tail length to a bound and around every
+//! defined size; per EDNS option code every OPTION-LENGTH. Every record /
+//! OPT record of these (and of the one-item family) goes through every public
+//! read-side method of its type (`deep_rdata`, `deep_opt`), and the typed
+//! route and the zone-data route are compared with the any-route
+//! (`typed_routes`).
 use domain::base::name::{Label, ParsedName, ToLabelIter, ToName};
 use domain::base::opt::AllOptData;
 use domain::base::{Message, MessageBuilder, ParsedRecord};
@@ -23,6 +32,7 @@ const LIMIT: usize = 70_000; // above any legal count (65535)
 static NAMES: std::sync::atomic::AtomicU64 = std::sync::atomic::AtomicU64::new(0);
 static DERIVED: std::sync::atomic::AtomicU64 = std::sync::atomic::AtomicU64::new(0);
 static BATTERIES: std::sync::atomic::AtomicU64 = std::sync::atomic::AtomicU64::new(0);
+static DEEP_READS: std::sync::atomic::AtomicU64 = std::sync::atomic::AtomicU64::new(0);
 
 // ------------------------------------------------------------ the script
 
@@ -41,6 +51,9 @@ struct T {
     full_derived: bool,
     /// thorough tier: derivations of derived names
     deep: bool,
+    /// every accessor of every record data / option type, typed routes (deep reads)
+    rd: bool,
+    deep_reads: u32,
 }
 impl T {
     fn ev(&mut self, k: &str) {
@@ -689,6 +702,11 @@ fn script(msg: &[u8], t: &mut T) {
             }
         }
         let _ = write!(t.s, "o{};", k);
+        if t.rd {
+            let rec = opt.as_record();
+            let _ = write!(t.s, "or{}:{};", format!("{}", rec).len(), format!("{:?}", rec).len());
+            deep_opt(t, opt.opt(), msg);
+        }
     }
     let _ = write!(t.s, "orc{:?};", m.opt_rcode());
     match m.get_last_additional::<AllRecordData<_, _>>() {
@@ -852,9 +870,698 @@ fn record(t: &mut T, r: &ParsedRecord<'_, [u8]>, msg: &[u8]) {
                 }
                 _ => {}
             }
+            if t.rd {
+                deep_rdata(t, rec.data(), msg);
+                typed_routes(t, r, Some(rec.data()));
+            }
         }
-        Err(_) => t.ev("rd-err"),
+        Err(_) => {
+            t.ev("rd-err");
+            if t.rd {
+                typed_routes(t, r, None);
+            }
+        }
     }
+}
+
+// ------------------------------------------------- deep reads (every accessor)
+
+fn hash_of<H: std::hash::Hash>(x: &H) -> u64 {
+    use std::hash::Hasher;
+    let mut h = std::collections::hash_map::DefaultHasher::new();
+    x.hash(&mut h);
+    h.finish()
+}
+
+/// The operations every record data type offers: all displays (plain, debug,
+/// zone-style in every DisplayKind), hash, comparisons against itself, the
+/// composed forms. Oracle: nothing fails, a value is equal to itself, hashes
+/// the same twice; the lengths go into the transcript (same twice).
+fn rdata_common<D>(t: &mut T, d: &D)
+where
+    D: serde::Serialize + std::fmt::Display + std::fmt::Debug + domain::base::zonefile_fmt::ZonefileFmt + std::hash::Hash + PartialEq + PartialOrd + domain::base::cmp::CanonicalOrd + domain::base::rdata::ComposeRecordData,
+{
+    use domain::base::zonefile_fmt::DisplayKind;
+    use std::cmp::Ordering::Equal;
+    t.deep_reads += 1;
+    let rt = d.rtype().to_int();
+    let a = format!("{}", d).len();
+    let b = format!("{:?}", d).len();
+    let z1 = format!("{}", d.display_zonefile(DisplayKind::Simple)).len();
+    let z2 = format!("{}", d.display_zonefile(DisplayKind::Tabbed)).len();
+    let z3 = format!("{}", d.display_zonefile(DisplayKind::Multiline)).len();
+    if hash_of(d) != hash_of(d) {
+        t.errs.push(format!("rdata|type-{rt}|hash-differs-between-two-calls"));
+    }
+    if !(d == d) || d.partial_cmp(d) != Some(Equal) || d.canonical_cmp(d) != Equal {
+        t.errs.push(format!("rdata|type-{rt}|not-equal-to-itself"));
+    }
+    let mut w = Vec::new();
+    let rc = d.compose_rdata(&mut w).is_ok();
+    let mut c = Vec::new();
+    let cc = d.compose_canonical_rdata(&mut c).is_ok();
+    let mut lw = Vec::new();
+    let lc = d.compose_len_rdata(&mut lw).is_ok();
+    let mut lcw = Vec::new();
+    let _ = d.compose_canonical_len_rdata(&mut lcw);
+    let rl = d.rdlen(false);
+    let _ = d.rdlen(true);
+    let js = serde_json::to_string(d).map(|j| j.len()).ok();
+    let _ = write!(t.s, "D{rt}:{js:?}:{a},{b},{z1},{z2},{z3},{}{}{},{},{},{:?};", rc as u8, cc as u8, lc as u8, w.len(), c.len(), rl);
+}
+
+fn charstr(t: &mut T, c: &domain::base::charstr::CharStr<&[u8]>) {
+    let k = c.iter().take(LIMIT).count();
+    let a = format!("{}", c).len();
+    let q = format!("{}", c.display_quoted()).len();
+    let u = format!("{}", c.display_unquoted()).len();
+    let _ = format!("{:?}", c);
+    let mut b = Vec::new();
+    let _ = c.compose(&mut b);
+    if c.len() != c.as_slice().len() || k != c.len() || c.is_empty() != (k == 0) || usize::from(c.compose_len()) != b.len() {
+        t.errs.push("rdata|character-string|length-accessors-disagree".into());
+    }
+    if !(c == c) || hash_of(c) != hash_of(c) || c.for_slice().as_slice() != c.as_slice() {
+        t.errs.push("rdata|character-string|not-equal-to-itself".into());
+    }
+    let _ = write!(t.s, "cs{k},{a},{q},{u};");
+}
+
+fn bitmap(t: &mut T, b: &domain::rdata::dnssec::RtypeBitmap<&[u8]>) {
+    use domain::base::Rtype;
+    let items: Vec<u16> = b.iter().take(LIMIT).map(|r| r.to_int()).collect();
+    if items.len() >= LIMIT {
+        t.errs.push("rdata|type-bitmap|iteration-does-not-end".into());
+        return;
+    }
+    // contains() agrees with iter() on a menu of types (window edges, first/last bit of an octet)
+    // (RFC 4034 4.1.2 wants the window blocks in increasing order; the answers are only compared for
+    // such bitmaps, on any other the calls just have to return)
+    let raw = b.as_slice();
+    let (mut p, mut last, mut ordered) = (0usize, -1i32, true);
+    while p + 1 < raw.len() {
+        ordered &= i32::from(raw[p]) > last;
+        last = i32::from(raw[p]);
+        p += 2 + usize::from(raw[p + 1]);
+    }
+    for rt in [0u16, 1, 2, 7, 8, 46, 47, 255, 256, 257, 0x7FFF, 0xFF00, 0xFFFF] {
+        if b.contains(Rtype::from_int(rt)) != items.contains(&rt) && ordered {
+            t.errs.push("rdata|type-bitmap|contains-disagrees-with-iteration".into());
+            break;
+        }
+    }
+    if b.is_empty() != items.is_empty() {
+        t.errs.push("rdata|type-bitmap|is_empty-disagrees-with-iteration".into());
+    }
+    let a = format!("{}", b).len();
+    let _ = format!("{:?}", b);
+    let _ = (b.as_octets(), hash_of(b), b == b);
+    let _ = write!(t.s, "bm{}:{a};", items.len());
+}
+
+/// Every public read-side method of every record data type, on the value the
+/// any-route handed out.
+fn deep_rdata(t: &mut T, data: &AllRecordData<&[u8], ParsedName<&[u8]>>, msg: &[u8]) {
+    use domain::base::cmp::CanonicalOrd;
+    use domain::rdata::tsig::Time48;
+    use AllRecordData as R;
+    match data {
+        R::A(x) => {
+            let _ = write!(t.s, "a{};", x.addr());
+        }
+        R::Aaaa(x) => {
+            let _ = write!(t.s, "a{};", x.addr());
+        }
+        R::Hinfo(x) => {
+            charstr(t, x.cpu());
+            charstr(t, x.os());
+        }
+        R::Mb(x) => use_name(t, x.madname(), msg),
+        R::Md(x) => use_name(t, x.madname(), msg),
+        R::Mf(x) => use_name(t, x.madname(), msg),
+        R::Mg(x) => use_name(t, x.madname(), msg),
+        R::Mr(x) => use_name(t, x.newname(), msg),
+        R::Ptr(x) => use_name(t, x.ptrdname(), msg),
+        R::Dname(x) => use_name(t, x.dname(), msg),
+        R::Minfo(x) => {
+            use_name(t, x.rmailbx(), msg);
+            use_name(t, x.emailbx(), msg);
+        }
+        R::Rp(x) => {
+            use_name(t, x.mbox(), msg);
+            use_name(t, x.txt(), msg);
+        }
+        R::Mx(x) => {
+            let _ = write!(t.s, "mx{};", x.preference());
+        }
+        R::Soa(x) => {
+            let _ = write!(t.s, "soa{}:{}:{}:{}:{};", x.serial(), x.refresh().as_secs(), x.retry().as_secs(), x.expire().as_secs(), x.minimum().as_secs());
+        }
+        R::Srv(x) => {
+            let _ = write!(t.s, "srv{}:{}:{};", x.priority(), x.weight(), x.port());
+        }
+        R::Txt(x) => {
+            let n = x.iter().take(LIMIT).map(|s| s.len()).sum::<usize>();
+            let k = x.iter_charstrs().take(LIMIT).count();
+            for c in x.iter_charstrs().take(8) {
+                let _ = (c.len(), format!("{}", c));
+            }
+            let flat = x.as_flat_slice().map(|s| s.len());
+            let text: Vec<u8> = x.text();
+            let tt: Result<Vec<u8>, _> = x.try_text();
+            if text.len() != n || tt.map(|v| v.len()).ok() != Some(n) {
+                t.errs.push("rdata|type-16|text-differs-from-concatenated-strings".into());
+            }
+            let _ = write!(t.s, "txt{k}:{n}:{}:{:?};", x.len(), flat);
+        }
+        R::Null(x) => {
+            let _ = write!(t.s, "null{}:{}:{};", x.len(), x.is_empty() as u8, x.data().len());
+        }
+        R::Caa(x) => {
+            let f = x.flags();
+            let tag = x.tag();
+            let _ = (format!("{} {:?}", f, f), format!("{} {:?}", tag, tag), hash_of(tag), tag == tag);
+            let mut tw = Vec::new();
+            let _ = tag.compose(&mut tw);
+            let _ = write!(t.s, "caa{}:{}:{}:{};", f.bits(), tag.compose_len(), tw.len(), x.value().len());
+        }
+        R::Dnskey(x) => {
+            let alg = x.algorithm();
+            let _ = (alg.to_mnemonic(), format!("{} {:?}", alg, alg));
+            let _ = write!(t.s, "key{}:{}:{}:{}:{}{}{}:{};", x.flags(), x.protocol(), alg.to_int(), x.public_key().len(), x.is_revoked() as u8, x.is_secure_entry_point() as u8, x.is_zone_key() as u8, x.key_tag());
+            let _ = x.clone().into_public_key();
+        }
+        R::Cdnskey(x) => {
+            let alg = x.algorithm();
+            let _ = (alg.to_mnemonic(), format!("{} {:?}", alg, alg));
+            let _ = write!(t.s, "ckey{}:{}:{}:{};", x.flags(), x.protocol(), alg.to_int(), x.public_key().len());
+        }
+        R::Ds(x) => {
+            let (alg, dt) = (x.algorithm(), x.digest_type());
+            let _ = (format!("{} {:?}", alg, alg), format!("{} {:?}", dt, dt), dt.to_mnemonic());
+            let _ = write!(t.s, "ds{}:{}:{}:{};", x.key_tag(), alg.to_int(), dt.to_int(), x.digest().len());
+            let _ = x.clone().into_digest();
+        }
+        R::Cds(x) => {
+            let (alg, dt) = (x.algorithm(), x.digest_type());
+            let _ = (format!("{} {:?}", alg, alg), format!("{} {:?}", dt, dt), dt.to_mnemonic());
+            let _ = write!(t.s, "cds{}:{}:{}:{};", x.key_tag(), alg.to_int(), dt.to_int(), x.digest().len());
+            let _ = x.clone().into_digest();
+        }
+        R::Rrsig(x) => {
+            let (exp, inc) = (x.expiration(), x.inception());
+            let _ = (format!("{} {:?}", exp, exp), format!("{} {:?}", inc, inc), exp == inc, exp.partial_cmp(&inc), exp.canonical_cmp(&inc));
+            // Timestamp::to_system_time: "a duration since UNIX_EPOCH that modulo 2**32 is equal to our value"
+            for reference in [0u64, 0x7FFF_FFFF, 0x8000_0000, 0xFFFF_FFFF, 0x1_0000_0005, 1_700_000_000, 0x2_8000_0000] {
+                for ts in [exp, inc] {
+                    let st = ts.to_system_time(std::time::UNIX_EPOCH + Duration::from_secs(reference));
+                    if st.duration_since(std::time::UNIX_EPOCH).map(|d| d.as_secs() as u32).ok() != Some(ts.into_int()) {
+                        t.errs.push("rdata|type-46|signature-time-as-system-time-is-not-congruent-to-the-field".into());
+                    }
+                }
+            }
+            let alg = x.algorithm();
+            let _ = format!("{} {} {:?}", x.type_covered(), alg, alg);
+            let _ = write!(t.s, "sig{}:{}:{}:{}:{}:{}:{}:{};", x.type_covered().to_int(), alg.to_int(), x.labels(), x.original_ttl().as_secs(), exp.into_int(), inc.into_int(), x.key_tag(), x.signature().len());
+        }
+        R::Nsec(x) => bitmap(t, x.types()),
+        R::Nsec3(x) => {
+            let ha = x.hash_algorithm();
+            let (salt, next) = (x.salt(), x.next_owner());
+            let a = format!("{} {:?} {}", salt, salt, ha).len();
+            let b = format!("{} {:?}", next, next).len();
+            let _ = (hash_of(salt), hash_of(next), salt == salt, next == next, salt.partial_cmp(salt), next.partial_cmp(next), salt.canonical_cmp(salt), next.canonical_cmp(next));
+            let _ = write!(t.s, "n3:{}:{}:{}{}:{}:{}:{}:{a}:{b};", ha.to_int(), x.flags(), x.opt_out() as u8, x.iterations(), salt.as_slice().len(), next.as_slice().len(), x.types().as_slice().len());
+            bitmap(t, x.types());
+        }
+        R::Nsec3param(x) => {
+            let ha = x.hash_algorithm();
+            let salt = x.salt();
+            let a = format!("{} {:?} {}", salt, salt, ha).len();
+            let _ = (hash_of(salt), salt == salt, salt.partial_cmp(salt));
+            let _ = write!(t.s, "n3p:{}:{}:{}:{}:{}:{a};", ha.to_int(), x.flags(), x.opt_out_flag() as u8, x.iterations(), salt.as_slice().len());
+            let _ = x.clone().into_salt();
+        }
+        R::Tlsa(x) => {
+            let (u, s, m) = (x.usage(), x.selector(), x.matching_type());
+            let _ = (format!("{} {:?} {} {:?} {} {:?}", u, u, s, s, m, m), u.to_mnemonic(), s.to_mnemonic(), m.to_mnemonic());
+            let _ = write!(t.s, "tlsa{}:{}:{}:{};", u.to_int(), s.to_int(), m.to_int(), x.data().len());
+        }
+        R::Sshfp(x) => {
+            let (a, f) = (x.algorithm(), x.fingerprint_type());
+            let _ = (format!("{} {:?} {} {:?}", a, a, f, f), a.to_mnemonic(), f.to_mnemonic());
+            let _ = write!(t.s, "sshfp{}:{}:{};", a.to_int(), f.to_int(), x.fingerprint().len());
+        }
+        R::Ipseckey(x) => {
+            use domain::rdata::ipseckey::IpseckeyGateway as G;
+            let (gt, al) = (x.gateway_type(), x.algorithm());
+            let _ = format!("{} {:?} {} {:?}", gt, gt, al, al);
+            let gw = x.gateway();
+            let kind = match gw {
+                G::None => 0,
+                G::Ipv4(a) => {
+                    let _ = a.addr();
+                    1
+                }
+                G::Ipv6(a) => {
+                    let _ = a.addr();
+                    2
+                }
+                G::Name(n) => {
+                    use_name(t, n, msg);
+                    3
+                }
+            };
+            let _ = format!("{:?}", gw);
+            if !gw.is_correct_gateway_type(gt) {
+                t.errs.push("rdata|type-45|gateway-does-not-match-its-gateway-type".into());
+            }
+            let _ = write!(t.s, "ipsec{}:{}:{}:{kind}:{}:{};", x.precedence(), gt.to_int(), al.to_int(), gw.rdlen(), x.key().len());
+        }
+        R::Zonemd(x) => {
+            let (s, a) = (x.scheme(), x.algorithm());
+            let _ = format!("{} {:?} {} {:?}", s, s, a, a);
+            let _ = write!(t.s, "zmd{}:{}:{}:{};", x.serial(), s.to_int(), a.to_int(), x.digest().len());
+        }
+        R::Openpgpkey(x) => {
+            let _ = write!(t.s, "pgp{};", x.key().len());
+        }
+        R::Naptr(x) => {
+            charstr(t, x.flags());
+            charstr(t, x.services());
+            charstr(t, x.regexp());
+            use_name(t, x.replacement(), msg);
+            let _ = write!(t.s, "naptr{}:{};", x.order(), x.preference());
+        }
+        R::Tsig(x) => {
+            use_name(t, x.algorithm(), msg);
+            let ts = x.time_signed();
+            let _ = (format!("{} {:?}", ts, ts), ts.into_octets(), hash_of(&ts));
+            let ot = x.other_time();
+            let er = x.error();
+            let _ = format!("{} {:?}", er, er);
+            let mut valid = 0u32;
+            for now in [0u64, 1, 299, 300, 301, 0x7FFF_FFFF, 0xFFFF_FFFF, 0xFFFF_FFFF_FFFF] {
+                valid = valid * 2 + x.is_valid_at(Time48::from_u64(now)) as u32;
+            }
+            if x.mac_slice().len() != x.mac().len() {
+                t.errs.push("rdata|type-250|mac_slice-differs-from-mac".into());
+            }
+            let _ = write!(t.s, "tsig{}:{}:{}:{}:{}:{}:{:?}:{valid};", ts.into_octets().len(), x.fudge(), x.mac().len(), x.original_id(), er.to_int(), x.other().len(), ot.map(|o| o.into_octets()));
+            let _ = x.clone().into_mac();
+        }
+        R::Svcb(x) => {
+            let _ = write!(t.s, "svcb{}:{}{};", x.priority(), x.is_alias() as u8, x.is_service() as u8);
+            svc_params(t, x.params());
+        }
+        R::Https(x) => {
+            let _ = write!(t.s, "https{}:{}{};", x.priority(), x.is_alias() as u8, x.is_service() as u8);
+            svc_params(t, x.params());
+        }
+        R::Opt(x) => deep_opt(t, x, msg),
+        R::Unknown(x) => {
+            let _ = write!(t.s, "unk{}:{};", x.rtype().to_int(), x.data().len());
+        }
+        // names and data of these are exercised by record()
+        R::Cname(_) | R::Ns(_) => {}
+        _ => {}
+    }
+}
+
+fn svc_params(t: &mut T, p: &domain::rdata::svcb::SvcParams<&[u8]>) {
+    use domain::rdata::svcb::value::{self as v, AllValues as V};
+    use domain::rdata::svcb::ComposeSvcParamValue;
+    use domain::rdata::svcb::SvcParamValue;
+    let a = format!("{}", p).len();
+    let _ = format!("{:?}", p);
+    let _ = (hash_of(p), p == p, p.for_slice().len(), p.as_octets().len());
+    if p.len() != p.as_slice().len() || p.is_empty() != p.as_slice().is_empty() {
+        t.errs.push("rdata|svc-params|length-accessors-disagree".into());
+    }
+    let mut k = 0;
+    for item in p.iter_all().take(LIMIT) {
+        k += 1;
+        let val = match item {
+            Ok(val) => val,
+            Err(_) => {
+                t.ev("svp-err");
+                continue;
+            }
+        };
+        let d = format!("{}", val).len();
+        let _ = format!("{:?}", val);
+        let mut w = Vec::new();
+        let _ = val.compose_value(&mut w);
+        let _ = (hash_of(&val), val == val);
+        let n = match &val {
+            V::Mandatory(m) => m.iter().take(LIMIT).map(|key| key.to_int() as usize % 7 + 1).sum::<usize>() + format!("{}", m).len(),
+            V::Alpn(m) => m.iter().take(LIMIT).map(|id| id.len() + 1).sum::<usize>() + format!("{}", m).len(),
+            V::NoDefaultAlpn(m) => format!("{}", m).len(),
+            V::Port(m) => m.port() as usize + format!("{}", m).len(),
+            V::Ech(m) => m.as_slice().len() + format!("{}", m).len(),
+            V::Ipv4Hint(m) => m.iter().take(LIMIT).map(|a| a.octets()[3] as usize + 1).sum::<usize>() + format!("{}", m).len(),
+            V::Ipv6Hint(m) => m.iter().take(LIMIT).map(|a| a.octets()[15] as usize + 1).sum::<usize>() + format!("{}", m).len(),
+            V::DohPath(m) => m.as_slice().len() + format!("{}", m).len(),
+            V::Ohttp(m) => format!("{}", m).len(),
+            V::TlsSupportedGroups(m) => m.iter().take(LIMIT).map(|g| g as usize % 7 + 1).sum::<usize>() + format!("{}", m).len(),
+            V::Unknown(m) => m.as_slice().len() + m.value().len() + format!("{}", m).len(),
+        };
+        let _ = write!(t.s, "sp{}:{}:{d}:{n}:{};", val.key().to_int(), val.compose_len(), w.len());
+    }
+    // the typed getters and typed iterators
+    let g = [
+        p.mandatory().map(|m| m.iter().take(LIMIT).count()),
+        p.alpn().map(|m| m.iter().take(LIMIT).count()),
+        p.port().map(|m| m.port() as usize),
+        p.ech().map(|m| m.as_slice().len()),
+        p.ipv4hint().map(|m| m.iter().take(LIMIT).count()),
+        p.ipv6hint().map(|m| m.iter().take(LIMIT).count()),
+        p.dohpath().map(|m| m.as_slice().len()),
+        p.tls_supported_groups().map(|m| m.iter().take(LIMIT).count()),
+        Some(p.no_default_alpn() as usize),
+        Some(p.ohttp() as usize),
+    ];
+    let it = [
+        p.iter::<v::Mandatory<_>>().take(LIMIT).filter(|r| r.is_ok()).count(),
+        p.iter::<v::Alpn<_>>().take(LIMIT).filter(|r| r.is_ok()).count(),
+        p.iter::<v::Port>().take(LIMIT).filter(|r| r.is_ok()).count(),
+        p.iter::<v::Ech<_>>().take(LIMIT).filter(|r| r.is_ok()).count(),
+        p.iter::<v::Ipv4Hint<_>>().take(LIMIT).filter(|r| r.is_ok()).count(),
+        p.iter::<v::Ipv6Hint<_>>().take(LIMIT).filter(|r| r.is_ok()).count(),
+        p.iter::<v::DohPath<_>>().take(LIMIT).filter(|r| r.is_ok()).count(),
+        p.iter::<v::TlsSupportedGroups<_>>().take(LIMIT).filter(|r| r.is_ok()).count(),
+        p.iter::<v::NoDefaultAlpn>().take(LIMIT).filter(|r| r.is_ok()).count(),
+        p.iter::<v::Ohttp>().take(LIMIT).filter(|r| r.is_ok()).count(),
+    ];
+    let _ = write!(t.s, "svp{k}:{a}:{:?}:{:?};", g, it);
+}
+
+/// What every option type offers: displays, the composed form and its
+/// announced length (the OPTION-LENGTH a builder writes in front of it).
+fn opt_common<O>(t: &mut T, o: &O) -> usize
+where
+    O: domain::base::opt::ComposeOptData + std::fmt::Display + std::fmt::Debug,
+{
+    t.deep_reads += 1;
+    let a = format!("{}", o).len();
+    let b = format!("{:?}", o).len();
+    let mut w = Vec::new();
+    let _ = o.compose_option(&mut w);
+    if usize::from(o.compose_len()) != w.len() {
+        t.errs.push(format!("opt|option-{}|compose_len-differs-from-composed-octets", o.code().to_int()));
+    }
+    let _ = write!(t.s, "O{}:{a},{b},{};", o.code().to_int(), w.len());
+    w.len()
+}
+
+/// Every read route to the options of one OPT record: the any-option
+/// iterator with every accessor of every option type, the raw iterator
+/// against an independent TLV walk (RFC 6891 6.1.2), one typed iterator and
+/// first::<T>() per option type, the typed getters.
+fn deep_opt(t: &mut T, opt: &Opt<&[u8]>, msg: &[u8]) {
+    use domain::base::opt::{self as o, AllOptData as A, OptData, UnknownOptData};
+    let mut rawv = Vec::new();
+    let _ = domain::base::rdata::ComposeRecordData::compose_rdata(opt, &mut rawv);
+    let raw: &[u8] = &rawv;
+    if opt.len() != raw.len() || opt.is_empty() != raw.is_empty() || opt.for_slice_ref().len() != raw.len() {
+        t.errs.push("opt|length-accessors-disagree".into());
+    }
+    // independent walk: (code, data)*, then an error if octets are left that are no complete option
+    let mut want: Vec<Option<(u16, &[u8])>> = Vec::new();
+    let mut p = 0usize;
+    while p < raw.len() {
+        if raw.len() - p < 4 {
+            want.push(None);
+            break;
+        }
+        let code = u16::from_be_bytes([raw[p], raw[p + 1]]);
+        let len = usize::from(u16::from_be_bytes([raw[p + 2], raw[p + 3]]));
+        if raw.len() - p - 4 < len {
+            want.push(None);
+            break;
+        }
+        want.push(Some((code, &raw[p + 4..p + 4 + len])));
+        p += 4 + len;
+    }
+    let got: Vec<Option<(u16, &[u8])>> = opt.iter::<UnknownOptData<_>>().take(LIMIT).map(|r| r.ok().map(|u| (u.code().to_int(), *u.data()))).collect();
+    if got != want {
+        t.errs.push("opt|raw-option-iteration-differs-from-independent-TLV-walk".into());
+    }
+    for u in opt.iter::<UnknownOptData<_>>().take(LIMIT).flatten() {
+        let n = opt_common(t, &u);
+        if u.as_slice().len() != n {
+            t.errs.push("opt|raw-option|as_slice-differs-from-composed-octets".into());
+        }
+    }
+    // the any-option iterator: never more items than options, an item's code is that option's code
+    let mut k = 0usize;
+    for item in opt.iter::<A<_, _>>().take(LIMIT) {
+        let idx = k;
+        k += 1;
+        let item = match item {
+            Ok(item) => item,
+            Err(_) => {
+                t.ev("O-err");
+                continue;
+            }
+        };
+        match want.get(idx) {
+            Some(Some((code, _))) if *code == item.code().to_int() => {}
+            _ => t.errs.push("opt|any-option-iteration|item-is-not-the-option-at-its-position".into()),
+        }
+        let _ = format!("{:?}", item);
+        let mut w = Vec::new();
+        let _ = domain::base::opt::ComposeOptData::compose_option(&item, &mut w);
+        if usize::from(domain::base::opt::ComposeOptData::compose_len(&item)) != w.len() {
+            t.errs.push(format!("opt|option-{}|compose_len-differs-from-composed-octets", item.code().to_int()));
+        }
+        match &item {
+            A::Nsid(x) => {
+                opt_common(t, x);
+                let _ = (x.as_slice().len(), x.as_octets().len(), x.for_slice().as_slice().len(), hash_of(x), x == x, x.partial_cmp(x));
+            }
+            A::Dau(x) => {
+                opt_common(t, x);
+                let n = x.iter().take(LIMIT).map(|a| a.to_int() as usize + 1).sum::<usize>();
+                let _ = (x.as_slice().len(), x.for_slice().as_slice().len(), hash_of(x), x == x);
+                let _ = write!(t.s, "alg{n};");
+            }
+            A::Dhu(x) => {
+                opt_common(t, x);
+                let n = x.iter().take(LIMIT).map(|a| a.to_int() as usize + 1).sum::<usize>();
+                let _ = (x.as_slice().len(), hash_of(x), x == x);
+                let _ = write!(t.s, "alg{n};");
+            }
+            A::N3u(x) => {
+                opt_common(t, x);
+                let n = x.iter().take(LIMIT).map(|a| a.to_int() as usize + 1).sum::<usize>();
+                let _ = (x.as_slice().len(), hash_of(x), x == x);
+                let _ = write!(t.s, "alg{n};");
+            }
+            A::ClientSubnet(x) => {
+                opt_common(t, x);
+                let _ = (hash_of(x), x == x, x.partial_cmp(x));
+                let _ = write!(t.s, "ecs{}:{}:{};", x.source_prefix_len(), x.scope_prefix_len(), x.addr());
+            }
+            A::Expire(x) => {
+                opt_common(t, x);
+                let _ = (hash_of(x), x == x, x.partial_cmp(x));
+                let _ = write!(t.s, "exp{:?};", x.expire());
+            }
+            A::Cookie(x) => {
+                opt_common(t, x);
+                cookie(t, x);
+            }
+            A::TcpKeepalive(x) => {
+                opt_common(t, x);
+                let _ = (hash_of(x), x == x, x.partial_cmp(x));
+                let to = x.timeout();
+                let _ = write!(t.s, "ka{:?};", to.map(|i| (format!("{} {:?}", i, i).len(), u16::from(i), std::time::Duration::from(i).as_millis())));
+            }
+            A::Padding(x) => {
+                opt_common(t, x);
+                let _ = (x.as_slice().len(), x.as_octets().len());
+            }
+            A::Chain(x) => {
+                opt_common(t, x);
+                let _ = (hash_of(x), x == x, x.partial_cmp(x));
+                let n = x.start();
+                let labels = n.iter().take(300).count();
+                let _ = write!(t.s, "chain{}:{labels}:{};", n.as_slice().len(), format!("{} {:?}", n, n).len());
+            }
+            A::KeyTag(x) => {
+                opt_common(t, x);
+                let n = x.iter().take(LIMIT).map(|v| v as usize + 1).sum::<usize>();
+                let _ = (x.as_slice().len(), x.as_octets().len(), hash_of(x), x == x, x.partial_cmp(x));
+                let _ = write!(t.s, "kt{n};");
+            }
+            A::ExtendedError(x) => {
+                opt_common(t, x);
+                let code = x.code();
+                let _ = (format!("{} {:?}", code, code), code.to_mnemonic(), hash_of(x), x == x);
+                let text = match x.text() {
+                    None => 0,
+                    Some(Ok(s)) => 1 + s.as_slice().len() + format!("{}", s).len(),
+                    Some(Err(b)) => 100_000 + b.len(),
+                };
+                let _ = write!(t.s, "ede{}:{}:{text}:{:?};", code.to_int(), x.is_private() as u8, x.text_slice().map(|s| s.len()));
+            }
+            A::Other(x) => {
+                opt_common(t, x);
+                let _ = write!(t.s, "oth{}:{};", x.code().to_int(), x.data().len());
+            }
+            _ => {}
+        }
+    }
+    // one typed iterator and first() per option type; the typed getters
+    macro_rules! typed {
+        ($($ty:ty),*) => {
+            [$({
+                let n = opt.iter::<$ty>().take(LIMIT).map(|r| if r.is_ok() { 1usize } else { 1000 }).sum::<usize>();
+                let first = opt.first::<$ty>();
+                if let Some(f) = &first {
+                    opt_common(t, f);
+                }
+                n * 2 + first.is_some() as usize
+            }),*]
+        };
+    }
+    let ty = typed!(o::Nsid<_>, o::Dau<_>, o::Dhu<_>, o::N3u<_>, o::ClientSubnet, o::Expire, o::Cookie, o::TcpKeepalive, o::Padding<_>, o::Chain<domain::base::Name<_>>, o::KeyTag<_>, o::ExtendedError<_>);
+    let getters = [
+        opt.nsid().map(|x| x.as_slice().len()),
+        opt.dau().map(|x| x.iter().take(LIMIT).count()),
+        opt.dhu().map(|x| x.iter().take(LIMIT).count()),
+        opt.n3u().map(|x| x.iter().take(LIMIT).count()),
+        opt.client_subnet().map(|x| x.source_prefix_len() as usize),
+        opt.expire().map(|x| x.expire().is_some() as usize),
+        opt.cookie().map(|x| {
+            cookie(t, &x);
+            x.server().is_some() as usize
+        }),
+        opt.tcp_keepalive().map(|x| x.timeout().is_some() as usize),
+        opt.chain().map(|x| x.start().as_slice().len()),
+        opt.key_tag().map(|x| x.iter().take(LIMIT).count()),
+        opt.extended_error().map(|x| x.code().to_int() as usize),
+    ];
+    let _ = write!(t.s, "Ot{k}:{:?}:{:?};", ty, getters);
+    let _ = msg;
+}
+
+fn cookie(t: &mut T, x: &domain::base::opt::Cookie) {
+    let _ = (hash_of(x), x == x, x.partial_cmp(x));
+    let cl = x.client();
+    let a = format!("{} {:?}", cl, cl).len() + cl.into_octets().len() + (hash_of(&cl) & 1) as usize;
+    let srv = match x.server() {
+        None => 0,
+        Some(s) => {
+            let sl: &[u8] = s.as_ref();
+            let mut w = Vec::new();
+            let _ = s.compose(&mut w);
+            if usize::from(s.compose_len()) != w.len() || w != sl {
+                t.errs.push("opt|option-10|server-cookie-composes-differently-from-its-octets".into());
+            }
+            let _ = (hash_of(s), s == s, s.partial_cmp(s));
+            let std = match s.try_to_standard() {
+                None => 0,
+                Some(st) => 1 + format!("{} {:?}", st, st).len() + st.version() as usize + st.reserved().len() + st.timestamp().into_int() as usize % 7 + st.hash().len(),
+            };
+            1000 * (1 + sl.len()) + format!("{} {:?}", s, s).len() + std
+        }
+    };
+    let ip: std::net::IpAddr = std::net::Ipv4Addr::new(192, 0, 2, 1).into();
+    let ok = x.check_server_hash(ip, &[7u8; 16], |_| true);
+    let _ = write!(t.s, "ck{a}:{srv}:{};", ok as u8);
+}
+
+/// The typed route to the record data (`to_record::<T>()` with the type that
+/// belongs to the record type) against the any-route (`AllRecordData`): both
+/// succeed or both fail, and they hand out equal values. The typed value goes
+/// through the common battery.
+fn typed_routes(t: &mut T, r: &ParsedRecord<'_, [u8]>, any: Option<&AllRecordData<&[u8], ParsedName<&[u8]>>>) {
+    use domain::base::iana::Rtype;
+    use domain::rdata::*;
+    macro_rules! typed {
+        ($variant:ident, $ty:ty) => {{
+            match r.to_record::<$ty>() {
+                Ok(Some(rec)) => {
+                    rdata_common(t, rec.data());
+                    match any {
+                        Some(AllRecordData::$variant(x)) => {
+                            if !(x == rec.data()) || hash_of(x) != hash_of(rec.data()) {
+                                t.errs.push(format!("rdata|type-{}|typed-route-and-any-route-hand-out-different-values", r.rtype().to_int()));
+                            }
+                        }
+                        Some(_) => t.errs.push(format!("rdata|type-{}|any-route-hands-out-another-type", r.rtype().to_int())),
+                        None => {}
+                    }
+                    1
+                }
+                Ok(None) => 2,
+                Err(_) => 0,
+            }
+        }};
+    }
+    let st = match r.rtype() {
+        Rtype::A => typed!(A, A),
+        Rtype::AAAA => typed!(Aaaa, Aaaa),
+        Rtype::CNAME => typed!(Cname, Cname<_>),
+        Rtype::HINFO => typed!(Hinfo, Hinfo<_>),
+        Rtype::MB => typed!(Mb, Mb<_>),
+        Rtype::MD => typed!(Md, Md<_>),
+        Rtype::MF => typed!(Mf, Mf<_>),
+        Rtype::MG => typed!(Mg, Mg<_>),
+        Rtype::MINFO => typed!(Minfo, Minfo<_>),
+        Rtype::MR => typed!(Mr, Mr<_>),
+        Rtype::MX => typed!(Mx, Mx<_>),
+        Rtype::NS => typed!(Ns, Ns<_>),
+        Rtype::PTR => typed!(Ptr, Ptr<_>),
+        Rtype::SOA => typed!(Soa, Soa<_>),
+        Rtype::TXT => typed!(Txt, Txt<_>),
+        Rtype::NULL => typed!(Null, Null<_>),
+        Rtype::CAA => typed!(Caa, Caa<_>),
+        Rtype::CDNSKEY => typed!(Cdnskey, Cdnskey<_>),
+        Rtype::CDS => typed!(Cds, Cds<_>),
+        Rtype::DNAME => typed!(Dname, Dname<_>),
+        Rtype::DNSKEY => typed!(Dnskey, Dnskey<_>),
+        Rtype::RRSIG => typed!(Rrsig, Rrsig<_, _>),
+        Rtype::NSEC => typed!(Nsec, Nsec<_, _>),
+        Rtype::DS => typed!(Ds, Ds<_>),
+        Rtype::NAPTR => typed!(Naptr, Naptr<_, _>),
+        Rtype::NSEC3 => typed!(Nsec3, Nsec3<_>),
+        Rtype::NSEC3PARAM => typed!(Nsec3param, Nsec3param<_>),
+        Rtype::RP => typed!(Rp, Rp<_>),
+        Rtype::SRV => typed!(Srv, Srv<_>),
+        Rtype::SVCB => typed!(Svcb, Svcb<_, _>),
+        Rtype::HTTPS => typed!(Https, Https<_, _>),
+        Rtype::TSIG => typed!(Tsig, Tsig<_, _>),
+        Rtype::OPT => typed!(Opt, Opt<_>),
+        _ => 3,
+    };
+    match (st, any.is_some()) {
+        (1, true) | (0, false) | (3, _) => {}
+        (2, _) => t.errs.push(format!("rdata|type-{}|typed-route-declines-its-own-record-type", r.rtype().to_int())),
+        (1, false) => t.errs.push(format!("rdata|type-{}|typed-route-parses-what-the-any-route-rejects", r.rtype().to_int())),
+        _ => t.errs.push(format!("rdata|type-{}|any-route-parses-what-the-typed-route-rejects", r.rtype().to_int())),
+    }
+    // the zone-data route: all zone types, everything else in raw form
+    let pseudo = matches!(r.rtype(), Rtype::OPT | Rtype::TSIG | Rtype::NULL);
+    let zs = match r.to_record::<ZoneRecordData<_, _>>() {
+        Ok(Some(rec)) => {
+            rdata_common(t, rec.data());
+            if let (Some(any), false) = (any, pseudo) {
+                if format!("{}", rec.data()) != format!("{}", any) || domain::base::rdata::RecordData::rtype(rec.data()) != r.rtype() {
+                    t.errs.push(format!("rdata|type-{}|zone-data-route-and-any-route-display-differently", r.rtype().to_int()));
+                }
+            }
+            1
+        }
+        Ok(None) => 2,
+        Err(_) => 0,
+    };
+    if !pseudo && zs != any.is_some() as u8 {
+        t.errs.push(format!("rdata|type-{}|zone-data-route-and-any-route-disagree-on-acceptance", r.rtype().to_int()));
+    }
+    let _ = write!(t.s, "ty{st}{zs};");
 }
 
 fn others() -> &'static [Vec<u8>; 2] {
@@ -875,9 +1582,12 @@ fn run_case(ctx: &Ctx, stats: &Stats, wd: &Watchdog, msg: &[u8], family: &str) {
     wd.enter(|| json!({"message": hex(msg), "family": family}));
     let mut results = Vec::new();
     let rich = !ctx.quick() || matches!(family, "one-item" | "pointer-chains" | "replay");
+    // every-accessor reads: all families in the thorough tier; in the quick tier the families
+    // built from the full per-field menus (the multi-item families repeat those records)
+    let deep_reads = !ctx.quick() || matches!(family, "one-item" | "pointer-chains" | "rdata-axis" | "opt-axis" | "replay");
     for run in 0..2 {
         let r = guard(|| {
-            let mut t = T { s: String::new(), names: 0, ptr_names: 0, rdata_parsed: 0, errs: vec![], derived: 0, batteries: 0, derive: run == 0, full_derived: rich, deep: !ctx.quick() };
+            let mut t = T { s: String::new(), names: 0, ptr_names: 0, rdata_parsed: 0, errs: vec![], derived: 0, batteries: 0, derive: run == 0, full_derived: rich, deep: !ctx.quick(), rd: deep_reads, deep_reads: 0 };
             script(msg, &mut t);
             t
         });
@@ -900,6 +1610,7 @@ fn run_case(ctx: &Ctx, stats: &Stats, wd: &Watchdog, msg: &[u8], family: &str) {
             DERIVED.fetch_add(a.derived as u64, std::sync::atomic::Ordering::Relaxed);
             BATTERIES.fetch_add(a.batteries as u64, std::sync::atomic::Ordering::Relaxed);
             NAMES.fetch_add(a.names as u64, std::sync::atomic::Ordering::Relaxed);
+            DEEP_READS.fetch_add(a.deep_reads as u64, std::sync::atomic::Ordering::Relaxed);
             if a.rdata_parsed > 0 || a.ptr_names > 0 {
                 stats.nontrivial.fetch_add(1, std::sync::atomic::Ordering::Relaxed);
                 stats.distinct(fnv(msg));
@@ -1251,6 +1962,314 @@ fn assemble(items: &[&Item], flags: u16, counts: [u16; 4]) -> Vec<u8> {
     m
 }
 
+// ------------------------------------- length axis x selector axis generators
+
+/// Filler octets of a variable-length tail: zeros, all-ones, counting
+/// (1, 2, 3, ...: reads as nested length octets), length-prefixed (first octet
+/// = len-1, then letters: one character-string / label / ALPN id spanning the
+/// tail), letters, high bit.
+fn fill(kind: u8, len: usize) -> Vec<u8> {
+    match kind {
+        0 => vec![0; len],
+        1 => vec![0xFF; len],
+        2 => (0..len).map(|i| (i + 1) as u8).collect(),
+        3 => {
+            let mut v = vec![b'a'; len];
+            if len > 0 {
+                v[0] = (len - 1).min(255) as u8;
+            }
+            v
+        }
+        4 => vec![b'a'; len],
+        _ => vec![0x80; len],
+    }
+}
+
+/// Every tail: lengths x fillers (the empty tail once).
+fn tails(lens: &[usize], kinds: &[u8]) -> Vec<Vec<u8>> {
+    let mut v = Vec::new();
+    for &l in lens {
+        for &k in kinds {
+            v.push(fill(k, l));
+            if l == 0 {
+                break;
+            }
+        }
+    }
+    v
+}
+
+/// Length-prefixed fields (one length octet) of every length x filler.
+fn lp8(lens: &[usize], kinds: &[u8]) -> Vec<Vec<u8>> {
+    tails(lens, kinds).into_iter().filter(|t| t.len() <= 255).map(|t| [&[t.len() as u8][..], &t].concat()).collect()
+}
+
+fn m8(v: &[u8]) -> Vec<Vec<u8>> {
+    v.iter().map(|x| vec![*x]).collect()
+}
+fn m16(v: &[u16]) -> Vec<Vec<u8>> {
+    v.iter().map(|x| x.to_be_bytes().to_vec()).collect()
+}
+fn m32(v: &[u32]) -> Vec<Vec<u8>> {
+    v.iter().map(|x| x.to_be_bytes().to_vec()).collect()
+}
+
+/// Cartesian product of field menus, concatenated.
+fn prod(fields: &[Vec<Vec<u8>>]) -> Vec<Vec<u8>> {
+    let mut out: Vec<Vec<u8>> = vec![vec![]];
+    for f in fields {
+        let mut next = Vec::with_capacity(out.len() * f.len());
+        for head in &out {
+            for x in f {
+                next.push([&head[..], &x[..]].concat());
+            }
+        }
+        out = next;
+    }
+    out
+}
+
+/// Tail lengths: every length up to a bound past the short fixed sizes, then
+/// the neighbourhoods of the sizes record data and options are defined with
+/// (SHA-1 20, SHA-256/GOST/Ed25519 32, cookie 8+32=40, SHA-384 48, SHA-512/P-256 64).
+fn axis_lens(quick: bool) -> Vec<usize> {
+    let mut v: Vec<usize> = if quick { (0..=12).collect() } else { (0..=70).collect() };
+    let edges: &[usize] = if quick { &[16, 20, 32, 40, 48, 64] } else { &[96, 128, 255, 256, 512, 1024] };
+    for &e in edges {
+        v.extend([e - 1, e, e + 1]);
+    }
+    v.sort();
+    v.dedup();
+    v
+}
+
+/// Security algorithm numbers (RFC 4034 A.1 and the IANA registry): every
+/// assigned one, the reserved/private/indirect ones, unassigned neighbours.
+fn algs(quick: bool) -> Vec<u8> {
+    if quick {
+        vec![0, 1, 2, 3, 4, 5, 6, 7, 8, 10, 12, 13, 14, 15, 16, 17, 23, 252, 253, 254, 255]
+    } else {
+        (0..=255).collect()
+    }
+}
+
+/// (record type, every RDATA of the type's axis product). Names inside RDATA
+/// may point at the owner (offset 12).
+fn rdata_axis(quick: bool) -> Vec<(u16, Vec<Vec<u8>>)> {
+    let lens = axis_lens(quick);
+    let small: Vec<usize> = if quick { vec![0, 1, 2, 8, 20, 32, 255] } else { vec![0, 1, 2, 3, 8, 16, 20, 21, 32, 48, 64, 254, 255] };
+    let k3: &[u8] = if quick { &[0, 1, 2] } else { &[0, 1, 2, 4, 5] };
+    let k4: &[u8] = if quick { &[0, 1, 2, 3] } else { &[0, 1, 2, 3, 4, 5] };
+    let t3 = tails(&lens, k3);
+    let t4 = tails(&lens, k4);
+    let names: Vec<Vec<u8>> = vec![vec![0], vec![1, b'a', 0], vec![0xC0, 12]];
+    let names_u: Vec<Vec<u8>> = vec![vec![0], vec![1, b'a', 0]];
+    let q = quick;
+    let pick = |quick_menu: &[u16], more: &[u16]| -> Vec<u16> { if q { quick_menu.to_vec() } else { [quick_menu, more].concat() } };
+    let pick8 = |quick_menu: &[u8], more: &[u8]| -> Vec<u8> { if q { quick_menu.to_vec() } else { [quick_menu, more].concat() } };
+    let mut out: Vec<(u16, Vec<Vec<u8>>)> = Vec::new();
+    // DNSKEY, CDNSKEY: flags x protocol x algorithm x key
+    for rt in [48u16, 60] {
+        out.push((rt, prod(&[m16(&pick(&[0, 0x0101, 0xFFFF], &[0x0180])), m8(&pick8(&[3], &[0])), m8(&algs(q)), t3.clone()])));
+    }
+    // DS, CDS: key tag x algorithm x digest type x digest
+    for rt in [43u16, 59] {
+        out.push((rt, prod(&[m16(&pick(&[0x1234], &[0, 0xFFFF])), m8(&pick8(&[0, 8, 13, 255], &[1, 5, 15])), m8(&pick8(&[0, 1, 2, 3, 4, 5, 6, 254, 255], &[7, 8, 128])), t3.clone()])));
+    }
+    // RRSIG: type covered x algorithm x labels x original TTL x expiration/inception x key tag x signer x signature
+    {
+        let times: Vec<Vec<u8>> = vec![[0u32.to_be_bytes(), 0u32.to_be_bytes()].concat(), [0xFFFF_FFFFu32.to_be_bytes(), 0u32.to_be_bytes()].concat(), [0x8000_0000u32.to_be_bytes(), 0x7FFF_FFFFu32.to_be_bytes()].concat()];
+        out.push((46, prod(&[m16(&pick(&[1], &[46, 0, 0xFFFF])), m8(&pick8(&[1, 8, 13, 255], &[0, 5, 15, 253])), m8(&pick8(&[1, 255], &[0, 127])), m32(&[60]), times, m16(&[0x1234]), names.clone(), t3.clone()])));
+    }
+    // NSEC: next name x window x bitmap length x bitmap filler (+ a second window)
+    {
+        let mut maps: Vec<Vec<u8>> = vec![vec![]];
+        for w in [0u8, 1, 255] {
+            for l in 0..=34usize {
+                for f in [0x00u8, 0xFF, 0x40, 0x01] {
+                    maps.push([&[w, l as u8][..], &vec![f; l]].concat());
+                }
+            }
+        }
+        let second: Vec<Vec<u8>> = vec![vec![], vec![1, 1, 0x40], vec![0, 1, 0x40]];
+        out.push((47, prod(&[names.clone(), maps.clone(), second])));
+        // NSEC3: hash algorithm x flags x iterations x salt x next hashed owner x bitmap
+        let few_maps: Vec<Vec<u8>> = vec![vec![], vec![0, 1, 0x40], vec![0, 0], vec![0, 33, 1]];
+        out.push((50, prod(&[m8(&pick8(&[0, 1, 2, 255], &[3, 128])), m8(&pick8(&[0, 1, 0xFF], &[2, 0x80])), m16(&pick(&[1], &[0, 0xFFFF])), lp8(&small, &[0, 2]), lp8(&small, &[0, 2]), few_maps])));
+    }
+    // NSEC3PARAM: hash algorithm x flags x iterations x salt (+ salt length one off)
+    {
+        let mut salts = lp8(&lens, k3);
+        salts.extend([vec![1], vec![2, 0xab], vec![0, 0xab], vec![255]]);
+        out.push((51, prod(&[m8(&pick8(&[0, 1, 2, 255], &[3, 128])), m8(&pick8(&[0, 1, 0xFF], &[2, 0x80])), m16(&pick(&[0, 0xFFFF], &[1, 150])), salts])));
+    }
+    // TLSA: usage x selector x matching type x data
+    out.push((52, prod(&[m8(&pick8(&[0, 3, 255], &[1, 2, 4])), m8(&pick8(&[0, 1, 255], &[2])), m8(&pick8(&[0, 1, 2, 255], &[3])), t3.clone()])));
+    // SSHFP: algorithm x fingerprint type x fingerprint
+    out.push((44, prod(&[m8(&pick8(&[0, 1, 2, 3, 4, 6, 255], &[5, 7])), m8(&pick8(&[0, 1, 2, 3, 255], &[4])), t3.clone()])));
+    // IPSECKEY: precedence x gateway type x algorithm x gateway (absent or of the type) x key
+    {
+        let mut v = Vec::new();
+        for gt in pick8(&[0, 1, 2, 3, 4, 255], &[5]) {
+            let mut gws: Vec<Vec<u8>> = vec![vec![]];
+            match gt {
+                1 => gws.push(vec![192, 0, 2, 1]),
+                2 => gws.push(vec![0x20; 16]),
+                3 => gws.extend(names.clone()),
+                _ => {}
+            }
+            v.extend(prod(&[m8(&[10]), m8(&[gt]), m8(&pick8(&[0, 1, 2, 3, 255], &[4])), gws, t3.clone()]));
+        }
+        out.push((45, v));
+    }
+    // ZONEMD: serial x scheme x algorithm x digest
+    out.push((63, prod(&[m32(&if q { vec![1] } else { vec![0, 1, 0xFFFF_FFFF] }), m8(&pick8(&[0, 1, 2, 255], &[3, 240])), m8(&pick8(&[0, 1, 2, 3, 255], &[4, 240])), t3.clone()])));
+    // the types that are one tail: OPENPGPKEY, NULL, an unknown type, A, AAAA, TXT (all fillers)
+    for rt in [61u16, 10, 65280, 1, 28] {
+        out.push((rt, t3.clone()));
+    }
+    {
+        let mut v = t4.clone();
+        v.extend(prod(&[lp8(&[0, 1, 255], &[4]), lp8(&[0, 1, 255], &[0])]));
+        out.push((16, v));
+    }
+    // HINFO: cpu x os (+ raw tails)
+    {
+        let mut v = prod(&[lp8(&small, &[4]), lp8(&small, &[0, 4])]);
+        v.extend(t4.clone());
+        out.push((13, v));
+    }
+    // CAA: flags x tag length x tag characters x value
+    {
+        let taglens: Vec<usize> = (0..=16).chain([254, 255]).collect();
+        let mut tags: Vec<Vec<u8>> = Vec::new();
+        for &l in &taglens {
+            for c in [b'a', b'A', b'0', b'-', b' ', 0x00, 0xFF] {
+                tags.push([&[l as u8][..], &vec![c; l]].concat());
+                if l == 0 {
+                    break;
+                }
+            }
+        }
+        tags.extend([vec![5, b'a'], vec![]]);
+        out.push((257, prod(&[m8(&pick8(&[0, 1, 128, 255], &[64])), tags, tails(&[0, 1, 8], &[4, 1])])));
+    }
+    // NAPTR: order x preference x flags x services x regexp x replacement, one string on the length axis at a time
+    {
+        let one = lp8(&[1], &[4]);
+        let axis = lp8(&lens, &[4, 1]);
+        let head = prod(&[m16(&[0, 0xFFFF]), m16(&[1])]);
+        let mut v = Vec::new();
+        for i in 0..3 {
+            let f: Vec<Vec<Vec<u8>>> = (0..3).map(|j| if i == j { axis.clone() } else { one.clone() }).collect();
+            v.extend(prod(&[head.clone(), f[0].clone(), f[1].clone(), f[2].clone(), names.clone()]));
+        }
+        out.push((35, v));
+    }
+    // TSIG: algorithm name x time x fudge x MAC x original id x error x other data
+    {
+        let lp16 = |lens: &[usize], kinds: &[u8]| -> Vec<Vec<u8>> { tails(lens, kinds).into_iter().map(|t| [&(t.len() as u16).to_be_bytes()[..], &t].concat()).collect() };
+        let times: Vec<Vec<u8>> = vec![vec![0; 6], vec![0xFF; 6], vec![0, 0, 0, 0, 1, 44]];
+        let alg_names: Vec<Vec<u8>> = vec![vec![0], [&[11u8][..], b"hmac-sha256", &[0]].concat()];
+        let mut v = prod(&[alg_names.clone(), times.clone(), m16(&[0, 300, 0xFFFF]), lp16(&[0, 1, 16, 20, 32, 64], &[2]), m16(&[0x1234]), m16(&[0, 16, 17, 18, 0xFFFF]), lp16(&[0, 5, 6, 7], &[1, 0])]);
+        v.extend(prod(&[names.clone(), vec![vec![0, 0, 0, 0, 1, 44]], m16(&[300]), lp16(&lens, &[0, 1]), m16(&[0]), m16(&[0, 18]), lp16(&[0, 6], &[2])]));
+        out.push((250, v));
+    }
+    // SVCB, HTTPS: priority x target x one parameter (every key the library knows, neighbours, private,
+    // reserved) on the length axis, alone / followed by a second parameter (greater, equal, smaller key)
+    for rt in [64u16, 65] {
+        let keys: Vec<u16> = pick(&[0, 1, 2, 3, 4, 5, 6, 7, 8, 9, 10, 65280, 65535], &[11, 12, 65279, 65534]);
+        let mut params: Vec<Vec<u8>> = vec![vec![]];
+        for &k in &keys {
+            for t in &t4 {
+                params.push([&k.to_be_bytes()[..], &(t.len() as u16).to_be_bytes(), t].concat());
+            }
+        }
+        let mut v = prod(&[m16(&pick(&[0, 1], &[0xFFFF])), if q { vec![vec![0]] } else { names_u.clone() }, params]);
+        let short: Vec<Vec<u8>> = keys.iter().flat_map(|k| tails(&small[..4], &[2, 3]).into_iter().map(|t| [&k.to_be_bytes()[..], &(t.len() as u16).to_be_bytes(), &t].concat()).collect::<Vec<_>>()).collect();
+        let second: Vec<Vec<u8>> = vec![vec![0, 3, 0, 2, 1, 187], vec![0xFF, 0xFE, 0, 0], vec![0, 0, 0, 2, 0, 1], vec![0, 3]];
+        v.extend(prod(&[m16(&[1]), vec![vec![0]], short, second]));
+        out.push((rt, v));
+    }
+    out
+}
+
+/// Every OPT RDATA of the option axis: every option code the library knows,
+/// its neighbours and unknown ones x selector prefixes x OPTION-LENGTH x
+/// filler, in three placements (alone; announcing one octet more than the
+/// RDATA holds; between two well-formed options).
+fn opt_axis(quick: bool) -> Vec<Vec<u8>> {
+    let mut lens: Vec<usize> = if quick { (0..=50).collect() } else { (0..=80).collect() };
+    lens.extend(if quick { vec![255, 256] } else { vec![127, 128, 129, 255, 256, 257, 511, 512, 1000] });
+    let kinds: &[u8] = if quick { &[0, 1, 2, 3] } else { &[0, 1, 2, 3, 4, 5] };
+    let mut codes: Vec<u16> = vec![0, 1, 2, 3, 4, 5, 6, 7, 8, 9, 10, 11, 12, 13, 14, 15, 16, 17, 18, 26946, 65001, 65535];
+    if !quick {
+        codes.extend([19, 20, 255, 256, 65000, 65534]);
+    }
+    let mut out = Vec::new();
+    for &code in &codes {
+        // selector octets laid over the start of the filler
+        let mut prefixes: Vec<Vec<u8>> = vec![vec![]];
+        match code {
+            8 => {
+                // client subnet: family x source prefix length x scope prefix length (RFC 7871 6)
+                for fam in [0u16, 1, 2, 3] {
+                    for src in [0u8, 1, 8, 24, 32, 33, 64, 128, 129, 255] {
+                        for scope in [0u8, 32] {
+                            if quick && (scope != 0 && src != 24 || fam == 3 && src > 8) {
+                                continue;
+                            }
+                            prefixes.push([&fam.to_be_bytes()[..], &[src, scope]].concat());
+                        }
+                    }
+                }
+            }
+            15 => prefixes.extend(m16(&[0, 24, 49152, 0xFFFF])),
+            13 => prefixes.extend([vec![1, b'a', 0], vec![0xC0, 0x0C], vec![63]]),
+            _ => {}
+        }
+        for prefix in &prefixes {
+            for &l in &lens {
+                if !prefix.is_empty() && l > 24 && quick {
+                    continue;
+                }
+                for &k in kinds {
+                    let mut data = fill(k, l);
+                    let n = prefix.len().min(l);
+                    data[..n].copy_from_slice(&prefix[..n]);
+                    let option = [&code.to_be_bytes()[..], &(l as u16).to_be_bytes(), &data].concat();
+                    out.push(option.clone());
+                    if k == 0 && l > 0 {
+                        out.push(option[..option.len() - 1].to_vec());
+                    }
+                    if k == 2 || l == 0 {
+                        out.push([&[0, 3, 0, 2, b'n', b's'][..], &option, &[0, 12, 0, 2, 0, 0]].concat());
+                    }
+                    if l == 0 {
+                        break;
+                    }
+                }
+            }
+        }
+    }
+    out
+}
+
+/// A response holding one record `o. <rtype> IN` with the RDATA.
+fn axis_message(rtype: u16, rdata: &[u8]) -> Vec<u8> {
+    let mut m = if rtype == 41 { header(0x8400, [0, 0, 0, 1]) } else { header(0x8400, [0, 1, 0, 0]) };
+    if rtype == 41 {
+        m.extend_from_slice(&[0, 0, 41, 0x04, 0xD0, 0, 0, 0x80, 0]);
+    } else {
+        m.extend_from_slice(&[1, b'o', 0]);
+        m.extend_from_slice(&rtype.to_be_bytes());
+        m.extend_from_slice(&[0, 1, 0, 0, 0, 60]);
+    }
+    m.extend_from_slice(&(rdata.len() as u16).to_be_bytes());
+    m.extend_from_slice(rdata);
+    m
+}
+
 fn main() {
     let ctx = Ctx::new("C01", "exploration");
     let stats = Arc::new(Stats::new());
@@ -1419,6 +2438,25 @@ fn main() {
         stats.count_n("gen.pointer_chain_messages", msgs.len() as u64);
         msgs.par_iter().for_each(|m| run_case(&ctx, &stats, &wd, m, "pointer-chains"));
     }
+    // --- length axis x selector axis: per record type the product of its selector octets
+    // (algorithm, digest type, flags, usage, gateway type, ...) with every tail length to a
+    // bound and past every defined size x fillers; per EDNS option code every OPTION-LENGTH
+    {
+        let mut total = 0u64;
+        for (rt, rdatas) in rdata_axis(quick) {
+            total += rdatas.len() as u64;
+            stats.count_n(&format!("gen.rdata_axis.type_{rt}"), rdatas.len() as u64);
+            rdatas.par_iter().for_each(|rd| {
+                if rd.len() <= 0xFFFF {
+                    run_case(&ctx, &stats, &wd, &axis_message(rt, rd), "rdata-axis");
+                }
+            });
+        }
+        stats.count_n("gen.rdata_axis_messages", total);
+        let opts = opt_axis(quick);
+        stats.count_n("gen.opt_axis_messages", opts.len() as u64);
+        opts.par_iter().for_each(|rd| run_case(&ctx, &stats, &wd, &axis_message(41, rd), "opt-axis"));
+    }
     // --- raw tier: every byte string of length n over 9 symbols after each header
     let raw: Vec<u8> = vec![0x00, 0x01, 0x3F, 0x40, 0x80, 0xC0, 0x0C, 0xFF, b'a'];
     let rawlen = if quick { 5 } else { 7 };
@@ -1449,22 +2487,26 @@ fn main() {
 
     stats.sample(1, || json!({"family": "one-item", "message": hex(&assemble(&[&first[first.len() / 2]], 0x8400, [0, 1, 0, 0]))}));
     stats.sample(2, || json!({"family": "one-item", "message": hex(&assemble(&[&first[first.len() - 1]], 0x8400, [0, 0, 0, 1]))}));
-    stats.sample(3, || json!({"family": "raw", "message": hex(&[&headers[0][..], &[0xC0, 0x0C, 0x00, 0x01, 0x00][..]].concat())}));
+    stats.sample(3, || json!({"family": "rdata-axis", "message": hex(&axis_message(43, &[0x12, 0x34, 8, 2, 1, 2, 3, 4, 5]))}));
+    stats.sample(4, || json!({"family": "opt-axis", "message": hex(&axis_message(41, &[0, 8, 0, 7, 0, 1, 24, 0, 192, 0, 2]))}));
+    stats.sample(5, || json!({"family": "raw", "message": hex(&[&headers[0][..], &[0xC0, 0x0C, 0x00, 0x01, 0x00][..]].concat())}));
     let cov = json!({
         "evaluations": stats.evals(),
         "distinct_nontrivial": stats.nontrivial.load(std::sync::atomic::Ordering::Relaxed).min(stats.distinct_count()),
-        "rule": "messages = header variants x items from per-field menus (names incl. pointers to every landmark, ~35 record types x RDATA variants incl. every internal length field short/long, rdlen exact/-1/+1/0/0xFFFF) for 1, 2 and 3 items; the pointer-chain family (every topology of up to three chained pointers, bare or behind one or two labels, aimed at the start of the previous name or at its pointer cell, ending at every kind of name position); every truncation of short one-item messages; every raw body over 9 symbols to the raw length. Each case runs the full read-side script twice. Every name handed out (question, owner, RDATA names, canonical_name) must be the independent decompression (mc::wire) of some position of the message and passes the name battery (label iteration from both ends, to_vec/to_bytes/to_name/compose/compose_len/as_flat_slice/try_flatten_into/flatten_into/to_cow/deref_octets/canonical forms equal to the independent wire form; ==, name_eq, name_cmp, canonical_cmp, partial_cmp, composed_cmp, lowercase_composed_cmp, starts_with, ends_with in both directions against flat names built from the independent labels: the same name, its lowercase form, the root, the parent, one label more in front / before the root, with the RFC 4034 order as oracle; hash; displays); the SAME battery is applied to every name object derived from it: the ref_octets/deref_octets views, every item of iter_suffixes(), every step of the parent() walk, of the split_first() walk and of the two alternating parent/split_first walks (incl. the refused step at the root), each against the matching suffix of the independent labels, plus equality of the same suffix reached by different routes (thorough: derivations of every derived object once more). non-trivial = typed RDATA or OPT option parsing succeeded at least once or a compressed name was returned; distinct = distinct message octets (hash set) among those",
+        "rule": "messages = header variants x items from per-field menus (names incl. pointers to every landmark, ~35 record types x RDATA variants incl. every internal length field short/long, rdlen exact/-1/+1/0/0xFFFF) for 1, 2 and 3 items; the pointer-chain family (every topology of up to three chained pointers, bare or behind one or two labels, aimed at the start of the previous name or at its pointer cell, ending at every kind of name position); every truncation of short one-item messages; every raw body over 9 symbols to the raw length. Each case runs the full read-side script twice. Every name handed out (question, owner, RDATA names, canonical_name) must be the independent decompression (mc::wire) of some position of the message and passes the name battery (label iteration from both ends, to_vec/to_bytes/to_name/compose/compose_len/as_flat_slice/try_flatten_into/flatten_into/to_cow/deref_octets/canonical forms equal to the independent wire form; ==, name_eq, name_cmp, canonical_cmp, partial_cmp, composed_cmp, lowercase_composed_cmp, starts_with, ends_with in both directions against flat names built from the independent labels: the same name, its lowercase form, the root, the parent, one label more in front / before the root, with the RFC 4034 order as oracle; hash; displays); the SAME battery is applied to every name object derived from it: the ref_octets/deref_octets views, every item of iter_suffixes(), every step of the parent() walk, of the split_first() walk and of the two alternating parent/split_first walks (incl. the refused step at the root), each against the matching suffix of the independent labels, plus equality of the same suffix reached by different routes (thorough: derivations of every derived object once more). LENGTH AXIS x SELECTOR AXIS x EVERY ACCESSOR: (rdata-axis) per record type with a variable-length tail or a selector-dependent reading (DNSKEY/CDNSKEY flags x protocol x algorithm, DS/CDS algorithm x digest type, RRSIG algorithm x labels x times x signer, NSEC window x bitmap length, NSEC3/NSEC3PARAM hash algorithm x flags x salt x hash, TLSA, SSHFP, IPSECKEY gateway type x algorithm x gateway, ZONEMD, SVCB/HTTPS every parameter key, CAA, NAPTR, TSIG, HINFO, TXT, OPENPGPKEY, NULL, A, AAAA, an unknown type) the product of the selector menus with every tail length 0..=12 (thorough 0..=70) and the neighbourhoods of 16/20/32/40/48/64 (thorough 96/128/255/256/512/1024) x fillers (zeros, ones, counting, length-prefixed; thorough letters, high bit); (opt-axis) every EDNS option code 0..=18, 26946 and unknown ones x selector prefixes (client-subnet family x prefix lengths, extended-error code, chain name) x OPTION-LENGTH 0..=50, 255, 256 (thorough 0..=80 and to 1000) x fillers, alone / announcing one octet more than RDLENGTH holds / between two other options. On these families, the one-item and pointer-chain families (thorough: all) every record additionally goes through: every public accessor of its record data type incl. the computing ones (key_tag, is_* predicates, bitmap contains vs iteration, signature time as system time, TSIG validity window, SVCB typed getters and typed value iterators, TXT text forms, character-string displays), the typed route to_record::<T>() and the zone-data route against the any-route (same acceptance, equal values, equal display), and on the typed values plain/debug/zone-style display in every DisplayKind, serde serialisation, hash, ==/partial_cmp/canonical_cmp against itself, compose/compose_canonical/rdlen; every OPT record through: raw option iteration against an independent TLV walk, the any-option iterator (item = option at its position), every accessor / Display / Debug / compose_len vs composed octets of every option type, one typed iterator and first::<T>() per option type, all typed getters, cookie standard-form and server-hash checks. non-trivial = typed RDATA or OPT option parsing succeeded at least once or a compressed name was returned; distinct = distinct message octets (hash set) among those",
         "distinct_transcript_shapes_and_messages": stats.distinct_count(),
         "exhaustive": true,
         "raw_len": rawlen,
         "names_exercised": NAMES.load(std::sync::atomic::Ordering::Relaxed),
         "derived_name_objects_exercised": DERIVED.load(std::sync::atomic::Ordering::Relaxed),
         "name_batteries_run": BATTERIES.load(std::sync::atomic::Ordering::Relaxed),
+        "typed_values_and_options_through_the_accessor_battery": DEEP_READS.load(std::sync::atomic::Ordering::Relaxed),
         "samples": stats.samples(),
         "counters": stats.counters_json(),
     });
     ctx.finish(cov, &[
         "octet values outside the menus and messages with more than three items are not covered",
+        "tail lengths beyond the length axis (quick: 65, thorough: 1025 octets) and selector values outside the menus (quick) are not covered; the length-axis records stand alone in their message",
         "a case that does not finish within 20 s is reported as a hang",
         "out-of-bounds reads behind unsafe are only detected if they panic or change the transcript",
     ]);
